@@ -187,6 +187,8 @@ impl RK23 {
 
         // --- Main integration loop ---
         loop {
+            #[cfg(feature = "verif")]
+            crate::verif::tick(crate::verif::RK23_MAIN);
             // Check for maximum number of steps
             if steps.total >= nmax {
                 status = Status::NeedLargerNMax;
@@ -299,6 +301,8 @@ impl RK23 {
                 }
             } else {
                 // Step rejected
+                #[cfg(feature = "verif")]
+                crate::verif::tick(crate::verif::RK23_REJECT);
                 steps.rejected += 1;
                 h *= (safety_factor * err.powf(error_exponent))
                     .min(1.0)
